@@ -66,7 +66,12 @@ func (t *TransactionManager) Confirm(id string) error {
 	if t.transaction == nil {
 		return fmt.Errorf("no ongoing transaction")
 	}
-	err := t.transaction.Confirm()
+	// make sure the id refers to the ongoing transaction before touching it
+	_, err := t.GetTransaction(id)
+	if err != nil {
+		return err
+	}
+	err = t.transaction.Confirm()
 	if err != nil {
 		return err
 	}
@@ -81,9 +86,14 @@ func (t *TransactionManager) Cancel(ctx context.Context, id string) error {
 	if t.transaction == nil {
 		return fmt.Errorf("no ongoing transaction")
 	}
+	// make sure the id refers to the ongoing transaction before touching it
+	_, err := t.GetTransaction(id)
+	if err != nil {
+		return err
+	}
 	rollbacktransAction := t.transaction.GetRollbackTransaction()
 
-	_, err := t.rollbacker.TransactionRollback(ctx, rollbacktransAction, false)
+	_, err = t.rollbacker.TransactionRollback(ctx, rollbacktransAction, false)
 	if err != nil {
 		return err
 	}
